@@ -327,7 +327,7 @@ Proof.
   unfold atomic in Hx. apply andb_prop in Hx. destruct Hx as [Hx Hp]. apply andb_prop in Hx. destruct Hx as [Hw Hq].
   apply negb_true_iff in Hw, Hq, Hp. cbn [app run]. cbn [step]. rewrite Hw, Hq, Hp.
   rewrite run_atom by assumption. cbn [run step]. rewrite (delim_not_quote c Hc). unfold dstep.
-  rewrite rev_app_distr, rev_involutive. cbn [rev app].
+  rewrite !frev_rev. rewrite rev_app_distr, rev_involutive. cbn [rev app].
   destruct (is_ws c) eqn:Ew; [reflexivity|]. unfold delim in Hc. rewrite Ew in Hc. cbn [orb] in Hc. rewrite Hc. reflexivity.
 Qed.
 
@@ -378,7 +378,7 @@ Proof.
   intros ts c rest Hc. unfold render_str. fold (esc s). cbn [app run]. cbn [step]. unfold is_ws, q. change (34 =? 32) with false.
   change (34 =? 9) with false. change (34 =? 10) with false. change (34 =? 13) with false. change (34 =? 34) with true. cbn [orb]. cbv iota.
   rewrite <- app_assoc, run_instr_esc. cbn [app run]. cbn [step]. unfold q. change (34 =? 34) with true. cbv iota.
-  rewrite app_nil_r, rev_involutive. rewrite step_out_delim by assumption. reflexivity.
+  rewrite frev_rev, app_nil_r, rev_involutive. rewrite step_out_delim by assumption. reflexivity.
 Qed.
 
 (* ---- composition ---- *)
@@ -564,7 +564,7 @@ Theorem lexes_tokens t T : lexes t T -> tokens t = Some T.
 Proof.
   intros H. rewrite <- tokens_ws_end. unfold tokens. rewrite (H [] 32 [] eq_refl).
   change (dstep 32 (rev T ++ [])) with (Out, rev T ++ []). cbn [run].
-  rewrite app_nil_r, rev_involutive. reflexivity.
+  rewrite frev_rev, app_nil_r, rev_involutive. reflexivity.
 Qed.
 
 (* ---- Part D: the parser on the token sequence of a value ---- *)
@@ -881,4 +881,266 @@ Qed.
 Theorem wf_jsonb_sound j : wf_jsonb j = true -> wf_json j.
 Proof.
   unfold wf_jsonb, wf_json. intros H. apply andb_prop in H. destruct H as [H1 H2]. split; [apply wfjb_sound; exact H1|apply Nat.leb_le; exact H2].
+Qed.
+
+(* ==================================================================================================== *)
+(* Any spelling.  [spells j T]: the token sequence T writes the value j in JSON - any escapes in string literals, any
+   accepted spelling of an integer (-0), arrays and objects with their members in order.  json.loads returns j for EVERY such
+   sequence (and hence for every text that lexes to one: any placement of blanks).  toks j is one spelling. *)
+Fixpoint spells (j : json) (T : list tok) : Prop :=
+  match j with
+  | JNull => T = [TAtom (L "null")]
+  | JBool b => T = [TAtom (if b then L "true" else L "false")]
+  | JNum z => exists a, T = [TAtom a] /\ atom a = AVal (JNum z)
+  | JFloat _ => False
+  | JStr s => exists r, T = [TStr r] /\ str_of r = Some s
+  | JArr l => exists Ts, T = TP 91 :: sep_tokens Ts ++ [TP 93] /\
+      (fix all (l : list json) (Ts : list (list tok)) : Prop :=
+         match l, Ts with
+         | [], [] => True
+         | x :: l', t :: Ts' => spells x t /\ all l' Ts'
+         | _, _ => False
+         end) l Ts
+  | JObj l => exists Ms, T = TP 123 :: sep_tokens Ms ++ [TP 125] /\
+      (fix all (l : list (text * json)) (Ms : list (list tok)) : Prop :=
+         match l, Ms with
+         | [], [] => True
+         | kv :: l', m :: Ms' => (exists r t, m = TStr r :: TP 58 :: t /\ str_of r = Some (fst kv) /\ spells (snd kv) t) /\ all l' Ms'
+         | _, _ => False
+         end) l Ms
+  end.
+
+Definition member_spells (kv : text * json) (m : list tok) : Prop :=
+  exists r t, m = TStr r :: TP 58 :: t /\ str_of r = Some (fst kv) /\ spells (snd kv) t.
+
+Lemma spells_arr l T : spells (JArr l) T <-> exists Ts, T = TP 91 :: sep_tokens Ts ++ [TP 93] /\ Forall2 spells l Ts.
+Proof.
+  cbn [spells]. split; intros [Ts [E H]]; exists Ts; (split; [exact E|]); clear E.
+  - revert Ts H. induction l as [|x l IH]; intros [|t Ts] H; try contradiction; constructor; [apply H|apply IH; apply H].
+  - induction H; [exact I|]. split; assumption.
+Qed.
+Lemma spells_obj l T : spells (JObj l) T <-> exists Ms, T = TP 123 :: sep_tokens Ms ++ [TP 125] /\ Forall2 member_spells l Ms.
+Proof.
+  cbn [spells]. split; intros [Ms [E H]]; exists Ms; (split; [exact E|]); clear E.
+  - revert Ms H. induction l as [|x l IH]; intros [|t Ms] H; try contradiction; constructor; [apply H|apply IH; apply H].
+  - induction H; [exact I|]. split; assumption.
+Qed.
+
+(* distinct keys in every object (what a Python dict is) *)
+Fixpoint keys_ok (j : json) : Prop :=
+  match j with
+  | JArr l => (fix all (l : list json) : Prop := match l with [] => True | x :: t => keys_ok x /\ all t end) l
+  | JObj l => (fix all (l : list (text * json)) : Prop := match l with [] => True | kv :: t => keys_ok (snd kv) /\ all t end) l
+              /\ NoDup (map fst l)
+  | _ => True
+  end.
+Lemma keys_ok_arr l : keys_ok (JArr l) <-> Forall keys_ok l.
+Proof.
+  cbn [keys_ok]. induction l as [|x t IH]; [split; constructor|]. split.
+  - intros [Hx Ht]. constructor; [exact Hx|apply IH; exact Ht].
+  - intros H. inversion H; subst. split; [assumption|apply IH; assumption].
+Qed.
+Lemma keys_ok_obj l : keys_ok (JObj l) <-> Forall (fun kv => keys_ok (snd kv)) l /\ NoDup (map fst l).
+Proof.
+  cbn [keys_ok]. apply and_iff_compat_r. induction l as [|x t IH]; [split; constructor|]. split.
+  - intros [Hx Ht]. constructor; [exact Hx|apply IH; exact Ht].
+  - intros H. inversion H; subst. split; [assumption|apply IH; assumption].
+Qed.
+
+Lemma spells_head j T : spells j T -> exists tk r, T = tk :: r /\ is_close tk = false.
+Proof.
+  destruct j as [| b | z | r | s | l | l]; cbn [spells]; intros H.
+  - subst. eexists; eexists; split; reflexivity.
+  - subst. eexists; eexists; split; reflexivity.
+  - destruct H as (a & -> & _). eexists; eexists; split; reflexivity.
+  - contradiction.
+  - destruct H as (r & -> & _). eexists; eexists; split; reflexivity.
+  - destruct H as (Ts & -> & _). eexists; eexists; split; reflexivity.
+  - destruct H as (Ms & -> & _). eexists; eexists; split; reflexivity.
+Qed.
+
+Definition parses_as (j : json) (T : list tok) : Prop :=
+  forall fuel rest, (length T <= fuel)%nat -> pval fuel KVal (T ++ rest) = Some (j, rest).
+
+Lemma arr_loop_s : forall l Ts acc f rest, Forall2 parses_as l Ts -> l <> [] ->
+  (length (sep_tokens Ts) + 1 <= f)%nat ->
+  pval f (KArr acc) (sep_tokens Ts ++ TP 93 :: rest) = Some (JArr (rev acc ++ l), rest).
+Proof.
+  induction l as [|x t IH]; intros Ts acc f rest H Hn Hf; [congruence|]. inversion H as [|? T ? Ts' Hx Ht]; subst.
+  destruct t as [|y t].
+  - inversion Ht; subst. cbn [sep_tokens] in *. destruct f as [|f]; [lia|]. cbn [pval]. rewrite (Hx f (TP 93 :: rest)) by lia.
+    change (93 =? 44) with false. change (93 =? 93) with true. cbv iota. cbn [rev]. reflexivity.
+  - inversion Ht as [|? T2 ? Ts2 Hy Ht2]; subst. rewrite sep_tokens_length_cons in Hf. rewrite sep_tokens_cons2, <- app_assoc. cbn [app].
+    destruct f as [|f]; [lia|]. cbn [pval]. rewrite (Hx f (TP 44 :: sep_tokens (T2 :: Ts2) ++ TP 93 :: rest)) by lia.
+    change (44 =? 44) with true. cbv iota.
+    rewrite (IH (T2 :: Ts2) (x :: acc) f rest Ht ltac:(discriminate)) by lia. cbn [rev]. rewrite <- app_assoc. reflexivity.
+Qed.
+
+Definition member_parses (kv : text * json) (m : list tok) : Prop :=
+  exists r t, m = TStr r :: TP 58 :: t /\ str_of r = Some (fst kv) /\ parses_as (snd kv) t.
+
+Lemma obj_loop_s : forall l Ms acc f rest, Forall2 member_parses l Ms -> l <> [] ->
+  (length (sep_tokens Ms) + 1 <= f)%nat ->
+  pval f (KObj acc) (sep_tokens Ms ++ TP 125 :: rest) = Some (JObj (build_obj (rev acc ++ l)), rest).
+Proof.
+  induction l as [|x t IH]; intros Ms acc f rest H Hn Hf; [congruence|]. inversion H as [|? M ? Ms' Hx Ht]; subst.
+  destruct x as [k v]. destruct Hx as (r & tv & -> & Hk & Hv). cbn [fst snd] in *. destruct t as [|y t].
+  - inversion Ht; subst. cbn [sep_tokens length] in *. destruct f as [|f]; [lia|]. cbn [app pval].
+    change (58 =? 58) with true. cbv iota. rewrite Hk. rewrite (Hv f (TP 125 :: rest)) by lia.
+    change (125 =? 44) with false. change (125 =? 125) with true. cbv iota. cbn [rev]. reflexivity.
+  - inversion Ht as [|? M2 ? Ms2 Hy Ht2]; subst. rewrite sep_tokens_length_cons in Hf. rewrite sep_tokens_cons2, <- app_assoc.
+    cbn [app length] in *. destruct f as [|f]; [lia|]. cbn [pval]. change (58 =? 58) with true. cbv iota. rewrite Hk.
+    rewrite <- ?app_assoc. cbn [app].
+    rewrite (Hv f (TP 44 :: sep_tokens (M2 :: Ms2) ++ TP 125 :: rest)) by lia.
+    change (44 =? 44) with true. cbv iota.
+    rewrite (IH (M2 :: Ms2) ((k, v) :: acc) f rest Ht ltac:(discriminate)) by lia. cbn [rev]. rewrite <- app_assoc. reflexivity.
+Qed.
+
+Lemma sep_head_not_close Ts tail tk r2 : (forall T, In T Ts -> exists tk0 r0, T = tk0 :: r0 /\ is_close tk0 = false) -> Ts <> [] ->
+  sep_tokens Ts ++ tail = tk :: r2 -> is_close tk = false.
+Proof.
+  intros H Hn E. destruct Ts as [|T Ts']; [congruence|]. destruct (H T (or_introl eq_refl)) as (tk0 & r0 & -> & Hc).
+  destruct Ts'; cbn [sep_tokens app] in E; injection E as <- _; exact Hc.
+Qed.
+
+Theorem parses_spelling : forall j T, spells j T -> keys_ok j -> parses_as j T.
+Proof.
+  induction j as [| b | z | r | s | l IH | l IH] using json_ind2; intros T Hs Hk fuel rest Hf.
+  - cbn [spells] in Hs. subst. destruct fuel; [cbn in Hf; lia|]. reflexivity.
+  - cbn [spells] in Hs. subst. destruct fuel; [cbn in Hf; lia|]. destruct b; reflexivity.
+  - destruct Hs as (a & -> & Ha). destruct fuel; [cbn in Hf; lia|]. cbn [app pval]. rewrite Ha. reflexivity.
+  - contradiction.
+  - destruct Hs as (r & -> & Hr). destruct fuel; [cbn in Hf; lia|]. cbn [app pval]. rewrite Hr. reflexivity.
+  - apply spells_arr in Hs. destruct Hs as (Ts & -> & HF). apply keys_ok_arr in Hk. destruct l as [|x t].
+    + inversion HF; subst. destruct fuel; [cbn in Hf; lia|]. reflexivity.
+    + cbn [length] in Hf. rewrite app_length in Hf. cbn [length] in Hf.
+      destruct fuel as [|f]; [lia|]. cbn [app]. rewrite <- app_assoc. cbn [app]. rewrite open_arr.
+      * rewrite (arr_loop_s (x :: t) Ts [] f rest); [reflexivity| |discriminate|lia].
+        clear Hf. revert IH Hk. induction HF as [|x0 T0 l0 Ts0 H0 HF0 IHF]; intros IH Hk; constructor.
+        -- inversion IH as [|? ? Px _]; inversion Hk as [|? ? Kx _]; subst. exact (Px T0 H0 Kx).
+        -- apply IHF; [inversion IH; assumption|inversion Hk; assumption].
+      * intros tk r2 E. eapply (sep_head_not_close Ts _ tk r2); [|inversion HF; discriminate|exact E].
+        intros T HT. clear - HF HT. induction HF as [|x0 T0 l0 Ts0 H0 HF0 IHF]; [contradiction|].
+        destruct HT as [<-|HT]; [eapply spells_head; exact H0|apply IHF; exact HT].
+  - apply spells_obj in Hs. destruct Hs as (Ms & -> & HF). apply keys_ok_obj in Hk. destruct Hk as [Hk Hnd]. destruct l as [|x t].
+    + inversion HF; subst. destruct fuel; [cbn in Hf; lia|]. reflexivity.
+    + cbn [length] in Hf. rewrite app_length in Hf. cbn [length] in Hf.
+      destruct fuel as [|f]; [lia|]. cbn [app]. rewrite <- app_assoc. cbn [app]. rewrite open_obj.
+      * rewrite (obj_loop_s (x :: t) Ms [] f rest); [| |discriminate|lia].
+        -- cbn [rev app]. unfold build_obj, obj_update. rewrite (build_obj_nodup (x :: t) []) by exact Hnd. reflexivity.
+        -- clear Hf Hnd. revert IH Hk. induction HF as [|x0 M0 l0 Ms0 H0 HF0 IHF]; intros IH Hk; constructor.
+           ++ destruct H0 as (r0 & t0 & -> & Hr0 & Hs0). exists r0, t0. split; [reflexivity|]. split; [exact Hr0|].
+              inversion IH as [|? ? Px _]; inversion Hk as [|? ? Kx _]; subst. exact (Px t0 Hs0 Kx).
+           ++ apply IHF; [inversion IH; assumption|inversion Hk; assumption].
+      * intros tk r2 E. eapply (sep_head_not_close Ms _ tk r2); [|inversion HF; discriminate|exact E].
+        intros M HM. clear - HF HM. induction HF as [|x0 M0 l0 Ms0 H0 HF0 IHF]; [contradiction|].
+        destruct HM as [<-|HM]; [destruct H0 as (r0 & t0 & -> & _); eexists; eexists; split; reflexivity|apply IHF; exact HM].
+Qed.
+
+Definition md_as (j : json) (T : list tok) : Prop := forall cur best rest, (cur <= best)%nat ->
+  max_depth cur best (T ++ rest) = max_depth cur (Nat.max best (cur + jdepth j)) rest.
+
+Lemma md_step_atom a cur best r : max_depth cur best (TAtom a :: r) = max_depth cur best r.
+Proof. reflexivity. Qed.
+
+Lemma md_arr_elems_s : forall l Ts cur best rest, (cur <= best)%nat -> Forall2 md_as l Ts ->
+  max_depth cur best (sep_tokens Ts ++ rest) =
+  max_depth cur (Nat.max best (cur + fold_right (fun x m => Nat.max (jdepth x) m) O l)) rest.
+Proof.
+  induction l as [|x t IH]; intros Ts cur best rest Hc H; inversion H as [|? T ? Ts' Hx Ht]; subst.
+  - cbn [sep_tokens app fold_right]. f_equal. lia.
+  - destruct t as [|y t].
+    + inversion Ht; subst. cbn [sep_tokens fold_right]. rewrite (Hx cur best rest Hc). f_equal. rewrite Nat.max_0_r. reflexivity.
+    + inversion Ht as [|? T2 ? Ts2 Hy Ht2]; subst. rewrite sep_tokens_cons2, <- app_assoc. cbn [app]. rewrite (Hx cur best _ Hc).
+      rewrite md_step_other by reflexivity.
+      rewrite (IH (T2 :: Ts2) cur (Nat.max best (cur + jdepth x)) rest ltac:(lia) Ht). f_equal. cbn [fold_right]. lia.
+Qed.
+
+Definition member_md (kv : text * json) (m : list tok) : Prop := exists r t, m = TStr r :: TP 58 :: t /\ md_as (snd kv) t.
+
+Lemma md_obj_elems_s : forall l Ms cur best rest, (cur <= best)%nat -> Forall2 member_md l Ms ->
+  max_depth cur best (sep_tokens Ms ++ rest) =
+  max_depth cur (Nat.max best (cur + fold_right (fun kv m => Nat.max (jdepth (snd kv)) m) O l)) rest.
+Proof.
+  induction l as [|x t IH]; intros Ms cur best rest Hc H; inversion H as [|? M ? Ms' Hx Ht]; subst.
+  - cbn [sep_tokens app fold_right]. f_equal. lia.
+  - destruct Hx as (r & tv & -> & Hv). destruct t as [|y t].
+    + inversion Ht; subst. cbn [sep_tokens fold_right app]. rewrite md_step_str, md_step_other by reflexivity.
+      rewrite (Hv cur best rest Hc). f_equal. rewrite Nat.max_0_r. reflexivity.
+    + inversion Ht as [|? M2 ? Ms2 Hy Ht2]; subst. rewrite sep_tokens_cons2, <- app_assoc. cbn [app].
+      rewrite md_step_str, md_step_other by reflexivity. rewrite <- ?app_assoc. rewrite (Hv cur best _ Hc). cbn [app].
+      rewrite md_step_other by reflexivity.
+      rewrite (IH (M2 :: Ms2) cur (Nat.max best (cur + jdepth (snd x))) rest ltac:(lia) Ht). f_equal. cbn [fold_right]. lia.
+Qed.
+
+Theorem md_spelling : forall j T, spells j T -> md_as j T.
+Proof.
+  induction j as [| b | z | r | s | l IH | l IH] using json_ind2; intros T Hs cur best rest Hc.
+  - cbn [spells] in Hs. subst. cbn [app jdepth]. rewrite md_step_atom. f_equal. lia.
+  - cbn [spells] in Hs. subst. cbn [app jdepth]. rewrite md_step_atom. f_equal. lia.
+  - destruct Hs as (a & -> & _). cbn [app jdepth]. rewrite md_step_atom. f_equal. lia.
+  - contradiction.
+  - destruct Hs as (r & -> & _). cbn [app jdepth]. rewrite md_step_str. f_equal. lia.
+  - apply spells_arr in Hs. destruct Hs as (Ts & -> & HF). cbn [jdepth]. cbn [app max_depth].
+    change ((91 =? 91) || (91 =? 123)) with true. cbv iota. rewrite <- app_assoc.
+    rewrite (md_arr_elems_s l Ts (S cur) (Nat.max best (S cur)) _ ltac:(lia)).
+    + cbn [app max_depth]. change ((93 =? 91) || (93 =? 123)) with false. change ((93 =? 93) || (93 =? 125)) with true. cbv iota.
+      cbn [Nat.pred]. f_equal. lia.
+    + clear - IH HF. induction HF as [|x0 T0 l0 Ts0 H0 HF0 IHF]; constructor.
+      * inversion IH as [|? ? Px _]; subst. exact (Px T0 H0).
+      * apply IHF. inversion IH; assumption.
+  - apply spells_obj in Hs. destruct Hs as (Ms & -> & HF). cbn [jdepth]. cbn [app max_depth].
+    change ((123 =? 91) || (123 =? 123)) with true. cbv iota. rewrite <- app_assoc.
+    rewrite (md_obj_elems_s l Ms (S cur) (Nat.max best (S cur)) _ ltac:(lia)).
+    + cbn [app max_depth]. change ((125 =? 91) || (125 =? 123)) with false. change ((125 =? 93) || (125 =? 125)) with true. cbv iota.
+      cbn [Nat.pred]. f_equal. lia.
+    + clear - IH HF. induction HF as [|x0 M0 l0 Ms0 H0 HF0 IHF]; constructor.
+      * destruct H0 as (r0 & t0 & -> & _ & Hs0). exists r0, t0. split; [reflexivity|].
+        inversion IH as [|? ? Px _]; subst. exact (Px t0 Hs0).
+      * apply IHF. inversion IH; assumption.
+Qed.
+
+Lemma spells_no_float : forall j T, spells j T -> has_float j = false.
+Proof.
+  induction j as [| b | z | r | s | l IH | l IH] using json_ind2; intros T Hs; try reflexivity; [contradiction| |].
+  - apply spells_arr in Hs. destruct Hs as (Ts & _ & HF). cbn [has_float]. clear - IH HF.
+    induction HF as [|x0 T0 l0 Ts0 H0 HF0 IHF]; [reflexivity|]. cbn [existsb]. inversion IH as [|? ? Px Pt]; subst.
+    rewrite (Px T0 H0). apply IHF. exact Pt.
+  - apply spells_obj in Hs. destruct Hs as (Ms & _ & HF). cbn [has_float]. clear - IH HF.
+    induction HF as [|x0 M0 l0 Ms0 H0 HF0 IHF]; [reflexivity|]. cbn [existsb]. inversion IH as [|? ? Px Pt]; subst.
+    destruct H0 as (r0 & t0 & _ & _ & Hs0). rewrite (Px t0 Hs0). apply IHF. exact Pt.
+Qed.
+
+(* json.loads returns j for every text that lexes to a spelling of j *)
+Theorem loads_spelling s j T : tokens s = Some T -> spells j T -> keys_ok j -> (jdepth j <= depth_limit)%nat -> loads s = LOk j.
+Proof.
+  intros Ht Hs Hk Hd. unfold loads. rewrite Ht. unfold loads_tokens.
+  pose proof (md_spelling j T Hs 0%nat 0%nat [] ltac:(lia)) as M. rewrite app_nil_r in M. rewrite M. cbn [max_depth Nat.max Nat.add].
+  destruct (Nat.ltb_spec depth_limit (jdepth j)); [lia|].
+  pose proof (parses_spelling j T Hs Hk (2 * length T + 2)%nat [] ltac:(lia)) as P. rewrite app_nil_r in P. rewrite P.
+  rewrite (spells_no_float j T Hs). reflexivity.
+Qed.
+
+(* the printers' token sequence is one spelling *)
+Theorem spells_toks : forall j, wfj j -> spells j (toks j) /\ keys_ok j.
+Proof.
+  induction j as [| b | z | r | s | l IH | l IH] using json_ind2; intros Hw.
+  - split; [reflexivity|exact I].
+  - split; [destruct b; reflexivity|exact I].
+  - split; [|exact I]. cbn [spells toks]. exists (render_z z). split; [reflexivity|apply atom_render_z; exact Hw].
+  - contradiction.
+  - split; [|exact I]. cbn [spells toks]. exists (esc s). split; [reflexivity|apply str_of_esc; exact Hw].
+  - apply wfj_arr in Hw. split.
+    + apply spells_arr. exists (map toks l). split; [reflexivity|]. clear - IH Hw.
+      induction l as [|x t IHl]; cbn [map]; constructor.
+      * inversion IH as [|? ? Px _]; inversion Hw as [|? ? Wx _]; subst. apply Px. exact Wx.
+      * apply IHl; [inversion IH; assumption|inversion Hw; assumption].
+    + apply keys_ok_arr. rewrite Forall_forall in *. intros x Hx. apply IH; [exact Hx|apply Hw; exact Hx].
+  - apply wfj_obj in Hw. destruct Hw as [Hw Hnd]. split.
+    + apply spells_obj. exists (map (fun kv => TStr (esc (fst kv)) :: TP 58 :: toks (snd kv)) l). split; [reflexivity|]. clear - IH Hw.
+      induction l as [|x t IHl]; cbn [map]; constructor.
+      * inversion IH as [|? ? Px _]; inversion Hw as [|? ? [Kx Vx] _]; subst. exists (esc (fst x)), (toks (snd x)).
+        split; [reflexivity|]. split; [apply str_of_esc; exact Kx|apply Px; exact Vx].
+      * apply IHl; [inversion IH; assumption|inversion Hw; assumption].
+    + apply keys_ok_obj. split; [|exact Hnd]. rewrite Forall_forall in *. intros kv Hkv. apply IH; [exact Hkv|apply (Hw kv Hkv)].
 Qed.
